@@ -84,10 +84,10 @@ func (m *CPU) Run(app risc.Application) (int, error) {
 		}
 
 		if ret {
-			// Complete the results still queued behind the return
+			// Complete the results still queued behind the return (the return
+			// itself does not wait for the write buffer, hence no cycle is counted)
 			for !m.writeUnit.isEmpty() || !m.writeBus.IsEmpty() {
 				m.ctx.VerifTick()
-				cycle++
 				m.writeUnit.cycle(m.ctx, m.writeBus)
 			}
 			break
